@@ -1,11 +1,97 @@
-// simdrv_http.cpp — scenario ops for the http test server (to be filled in).
+// simdrv_http.cpp — scenario ops for the HTTP test server sim::http_server (objects w<k>).
+//
+//   w<k>.new <node> port=<n> keepalive=<0|1>     construct the real server on a node
+//                                                 (=> ok | throw:<error name> when the constructor threw)
+//   w<k>.content <path> size=<n>                 register_content(path, n, gen); gen(start,len)[i] = (start+i) mod 256
+//   w<k>.redirect <path> <target>                register_redirect
+//   w<k>.stall <path>                            register_stall_handler
+//   w<k>.handler <path> body=<hex>               register_handler returning send_response(200,"OK",len) + body
+//   w<k>.stop                                    http_server::stop()
+//   w<k>.destroy                                 destructor
+//
+// The server's own callbacks print nothing (they are kernel tasks all the same); what the
+// property speaks about is observed at the clients, which are ordinary scenario sockets.
 #include "simdrv.hpp"
+#include "simdrv_srv.hpp"
+
+#include <stdexcept>
+
+using boost::system::error_code;
 
 namespace simdrv {
 
-bool World::op_http(std::string const&, toks const&)
+// the content generator of the scenarios: byte i of gen(start, len) is (start + i) mod 256.
+// A negative or absurd length is refused the way std::string would refuse it.
+static std::string gen_content(std::int64_t start, std::int64_t len)
 {
-	return false;
+	if (len < 0 || len > (std::int64_t(1) << 22)) throw std::length_error("gen_content");
+	std::string r(std::size_t(len), '\0');
+	for (std::int64_t i = 0; i < len; ++i)
+		r[std::size_t(i)] = char((std::uint64_t(start) + std::uint64_t(i)) & 0xff);
+	return r;
+}
+
+bool World::op_http(std::string const& ctx, toks const& op)
+{
+	std::string const& o = op[0];
+	std::size_t const dot = o.find('.');
+	if (dot == std::string::npos || dot < 2 || o[0] != 'w' || !isdigit(o[1])) return false;
+	std::string const name = o.substr(0, dot);
+	std::string const m = o.substr(dot + 1);
+	std::string const text = join(op, 0);
+	char const* c = ctx.c_str();
+	auto res = [&](std::string const& r) { emit("C %s %s => %s", c, text.c_str(), r.c_str()); };
+	if (!srv) srv = std::make_shared<Srv>();
+	auto& H = srv->http;
+
+	try {
+	if (m == "new")
+	{
+		std::string const nd = op.size() > 1 ? op[1] : default_node;
+		int const port = int(kvi(op, "port", 8080));
+		int const flags = kvi(op, "keepalive", 1) ? sim::http_server::keep_alive : 0;
+		H.erase(name);
+		try
+		{
+			++api_depth;
+			H[name].reset(new sim::http_server(node(nd), static_cast<unsigned short>(port), flags));
+			--api_depth;
+			res("ok");
+		}
+		catch (boost::system::system_error const& e)
+		{
+			--api_depth;
+			H.erase(name);
+			res(std::string("throw:") + ec_name(e.code()));
+		}
+		return true;
+	}
+	auto it = H.find(name);
+	if (it == H.end() || !it->second) { res("skipped"); return true; }
+	sim::http_server& s = *it->second;
+	if (m == "content")
+	{
+		s.register_content(op.at(1), std::int64_t(kvi(op, "size", 0)), &gen_content);
+		res("-");
+	}
+	else if (m == "redirect") { s.register_redirect(op.at(1), op.at(2)); res("-"); }
+	else if (m == "stall") { s.register_stall_handler(op.at(1)); res("-"); }
+	else if (m == "handler")
+	{
+		std::vector<std::uint8_t> const b = unhex(kv(op, "body", "-"));
+		std::string const body(b.begin(), b.end());
+		s.register_handler(op.at(1), [body](std::string, std::string, std::map<std::string, std::string>&)
+		{
+			return sim::send_response(200, "OK", int(body.size())) + body;
+		});
+		res("-");
+	}
+	else if (m == "stop") { ++api_depth; try { s.stop(); } catch (...) { --api_depth; throw; } --api_depth; res("-"); }
+	else if (m == "destroy") { ++api_depth; H.erase(it); --api_depth; res("-"); }
+	else res("bad-op");
+	}
+	catch (std::out_of_range const&) { res("bad-op"); }
+	return true;
 }
 
 } // namespace simdrv
